@@ -373,9 +373,10 @@ def plan(tier):
         # order (a different eighth for each order, so all functions occur in three orders)
         for oi in range(24):
             ts.append(('cr', 4, oi, ('K0', 'K1')[oi % 2], oi % 8, 8, None))
+        # n = 4, two simultaneous replacements over G (30 functions): one 64th of the functions
+        # per order (a different slice for each order)
         for oi in range(0, 24, 5):
-            for si in range(16):
-                ts.append(('compose', 4, oi, 'K0', (2,), si, 16, None))
+            ts.append(('compose', 4, oi, 'K0', (2,), oi % 64, 64, None))
     return ts
 
 
